@@ -96,7 +96,10 @@ Inductive idecl :=
 | IVar (pub : bool) (x : name) (t : ty)
 | IConst (pub : bool) (x : name) (t : ty)
 | IFun (pub : bool) (f : name) (ps : list (ty * bool)) (ret : option ty)
-| IStruct (pub : bool) (s : name) (g : article) (fields : list (bool * name * ty)).
+| IStruct (pub : bool) (s : name) (g : article) (fields : list (bool * name * ty))
+(* a constructor alias of the Kombination s ("... und erstellen sie so: <alias with these fields>"): a Kombination
+   literal is a call of c with one argument per listed field; c is usable wherever s is imported *)
+| IAlias (c : name) (s : name) (fs : list name).
 
 Definition imod := list idecl.
 
